@@ -70,10 +70,9 @@ namespace nmtools::meta
     >
     {
         static constexpr auto vtype = [](){
-            if constexpr (
-                is_constant_index_array_v<shape_t>
-                || is_clipped_index_array_v<shape_t>
-            ) {
+            // only a constant shape can be squeezed at compile time:
+            // the extents of a clipped shape are run-time values, an axis may be 1 under a maximum > 1
+            if constexpr (is_constant_index_array_v<shape_t>) {
                 constexpr auto src_shape = to_value_v<shape_t>;
                 constexpr auto dst_shape = index::shape_squeeze(src_shape);
                 using nmtools::len, nmtools::at;
